@@ -15,6 +15,9 @@ import FordModel.Lemmas.LinkPath
 import FordModel.Lemmas.LinkSites
 import FordModel.LinkSyntax
 import FordModel.Lemmas.LinkSyntax
+import FordModel.LinkWarn
+import FordModel.Lemmas.LinkWarn
+import FordModel.InlineOrder
 namespace Ford.C11
 open Ford Ford.Links
 
@@ -391,6 +394,197 @@ theorem file_name_outside_pattern_witness :
        .ref { name := chars! "mesh.v2.f90", kind := some (chars! "file") }] := by
   decide
 
+/-! ### Round 6: "... is rendered as plain text **with a warning**" (the `warn` calls of `convert_link`) -/
+
+/-- The element `convert_link` returns is the one all theorems above speak about: adding the
+    warnings to the model changes nothing of what is rendered. -/
+theorem warnings_do_not_change_the_rendering (env : Env) (P : Project) (ctx : Option Nat) (path : Option Path) (r : Ref) :
+    (convertLinkW env P ctx path r).1 = convertLink env P ctx path r :=
+  convertLinkW_fst env P ctx path r
+
+/-- **Plain text comes with a warning** - for every project, context, path and reference, without
+    any hypothesis: whenever a reference is rendered as plain text, the text is the component name as
+    written and a "not found" warning is printed during that very conversion which quotes the
+    reference as written (`m.group()`) and names the component. -/
+theorem plain_text_is_always_warned (env : Env) (P : Project) (ctx : Option Nat) (path : Option Path) (r : Ref) (t : Str)
+    (h : (convertLinkW env P ctx path r).1 = .text t) :
+    t = r.name ∧ Warn.notFound r.render r.name ∈ (convertLinkW env P ctx path r).2 := by
+  rw [convertLinkW_fst] at h
+  have hl : lookup P ctx r = .ok none := (convertLink_text_iff env P ctx path r).1 ⟨t, h⟩
+  constructor
+  · simp [convertLink, hl] at h; exact h.symm
+  · show _ ∈ (lookupW P ctx r).2
+    rcases lookupW_cases P ctx r with ⟨_, h2⟩ | ⟨h1, _, _⟩ | ⟨ch, _, ⟨_, h2⟩ | ⟨h1, _⟩⟩
+    · rcases h2 with ⟨id, h2⟩ | ⟨e, h2⟩ <;> simp [hl] at h2
+    · simp [h1]
+    · rcases h2 with ⟨id, h2⟩ | ⟨e, h2⟩ <;> simp [hl] at h2
+    · simp [h1]
+
+/-- ... and only then: a "not found" warning is printed only for a reference that is rendered as
+    plain text, and it quotes that reference and its component name. -/
+theorem not_found_warning_only_for_plain_text (env : Env) (P : Project) (ctx : Option Nat) (path : Option Path)
+    (r : Ref) (l n : Str) (h : Warn.notFound l n ∈ (convertLinkW env P ctx path r).2) :
+    (convertLinkW env P ctx path r).1 = .text r.name ∧ l = r.render ∧ n = r.name := by
+  rw [convertLinkW_fst]
+  change _ ∈ (lookupW P ctx r).2 at h
+  rcases lookupW_cases P ctx r with ⟨h1, _⟩ | ⟨h1, _, hl⟩ | ⟨ch, _, ⟨h1, _⟩ | ⟨h1, hl⟩⟩
+  · simp [h1] at h
+  · simp [h1] at h; exact ⟨by simp [convertLink, hl], h.1, h.2⟩
+  · simp [h1] at h
+  · simp [h1] at h; exact ⟨by simp [convertLink, hl], h.1, h.2⟩
+
+/-- **A link is silent unless it is the fall-back to the component's page**: when a reference becomes
+    a link, either nothing is printed, or the reference has an item part that was not found and the
+    one warning says so (it quotes the reference, the item and the component whose page is linked
+    instead).  A reference without item part that becomes a link prints nothing. -/
+theorem link_warned_only_on_fallback (env : Env) (P : Project) (ctx : Option Nat) (path : Option Path) (r : Ref)
+    (t h : Str) (hl : (convertLinkW env P ctx path r).1 = .link t h) :
+    (convertLinkW env P ctx path r).2 = [] ∨
+      ∃ ch, r.child = some ch ∧ (convertLinkW env P ctx path r).2 = [.childNotFound r.render ch r.name] := by
+  rw [convertLinkW_fst] at hl
+  have hne : lookup P ctx r ≠ .ok none := by
+    intro h0; simp [convertLink, h0] at hl
+  change (lookupW P ctx r).2 = [] ∨ ∃ ch, r.child = some ch ∧ (lookupW P ctx r).2 = _
+  rcases lookupW_cases P ctx r with ⟨h1, _⟩ | ⟨_, _, h0⟩ | ⟨ch, hch, ⟨h1, _⟩ | ⟨_, h0⟩⟩
+  · exact Or.inl h1
+  · exact absurd h0 hne
+  · exact Or.inr ⟨ch, hch, h1⟩
+  · exact absurd h0 hne
+
+/-- Every warning quotes the reference as it was written in the text (and by
+    `documented_reference_recognised` the written reference is what the pattern matched). -/
+theorem warning_quotes_reference_as_written (env : Env) (P : Project) (ctx : Option Nat) (path : Option Path)
+    (r : Ref) (w : Warn) (h : w ∈ (convertLinkW env P ctx path r).2) : w.link = r.render := by
+  change w ∈ (lookupW P ctx r).2 at h
+  rcases lookupW_cases P ctx r with ⟨h1, _⟩ | ⟨h1, _, _⟩ | ⟨ch, _, ⟨h1, _⟩ | ⟨h1, _⟩⟩
+  · simp [h1] at h
+  · simp [h1] at h; subst h; rfl
+  · simp [h1] at h; subst h; rfl
+  · simp [h1] at h
+    rcases h with h | h <;> subst h <;> rfl
+
+/-- **Absent is text with a warning.**  Under the hypotheses of `absent_is_text` (no exception class)
+    a reference whose component name no entity carries is rendered as the name as written and
+    prints: for `[[name]]` / `[[name(kind)]]` exactly one "not found" warning; with an item part
+    first the "item not found in component" warning, then the "not found" warning. -/
+theorem absent_is_text_with_warning (env : Env) (P : Project) (ctx : Option Nat) (path : Option Path) (r : Ref)
+    (hK : ∀ e ∈ P.ents, raisesTypeError e r.kind = false)
+    (hC : ∀ e ∈ P.ents, raisesTypeError e r.childKind = false)
+    (hP : knownComponentKind r.kind = true)
+    (habs : ∀ id, nameMatches P r.name id = false) :
+    convertLinkW env P ctx path r =
+      (.text r.name,
+       match r.child with
+       | none => [.notFound r.render r.name]
+       | some ch => [.childNotFound r.render ch r.name, .notFound r.render r.name]) := by
+  have ht := absent_is_text env P ctx path r hK hC hP habs
+  have hl : lookup P ctx r = .ok none := (convertLink_text_iff env P ctx path r).1 ⟨_, ht⟩
+  have h1 : (convertLinkW env P ctx path r).1 = .text r.name := by rw [convertLinkW_fst, ht]
+  have h2 : (convertLinkW env P ctx path r).2 = (lookupW P ctx r).2 := rfl
+  rw [Prod.ext_iff]
+  refine ⟨h1, ?_⟩
+  rw [h2]
+  rcases lookupW_cases P ctx r with ⟨_, h3⟩ | ⟨h3, hch, _⟩ | ⟨ch, hch, ⟨_, h3⟩ | ⟨h3, _⟩⟩
+  · rcases h3 with ⟨id, h3⟩ | ⟨e, h3⟩ <;> simp [hl] at h3
+  · simp [h3, hch]
+  · rcases h3 with ⟨id, h3⟩ | ⟨e, h3⟩ <;> simp [hl] at h3
+  · simp [h3, hch]
+
+/-- **The warnings of a text**: a documentation text `pre₁ [[r₁]] pre₂ [[r₂]] ... post` whose
+    references convert without exception prints exactly the warnings of its references, one after the
+    other in the order written - none is dropped, merged or reordered. -/
+theorem text_warnings_in_order (env : Env) (P : Project) (ctx : Option Nat) (path : Option Path)
+    (parts : List (Str × Ref)) (post : Str)
+    (hdoc : ∀ p ∈ parts, p.2.Documented)
+    (hpre : ∀ p ∈ parts, ∀ c ∈ p.1, c ≠ '[') (hpost : ∀ c ∈ post, c ≠ '[')
+    (hok : ∀ p ∈ parts, ∀ e, convertLink env P ctx path p.2 ≠ .err e) :
+    (convertTextW linkCfg env P ctx path (renderParts parts post)).2 =
+      parts.flatMap (fun p => (convertLinkW env P ctx path p.2).2) := by
+  simp only [convertTextW]
+  rw [references_of_a_text_recognised parts post hdoc hpre hpost]
+  exact warnSegs_parts env P ctx path parts post hok
+
+/-- **The same broken reference written `n` times is warned about `n` times** (a text that mentions
+    a removed entity in several places): no de-duplication by the reference's text. -/
+theorem repeated_absent_reference_warned_each_time (env : Env) (P : Project) (ctx : Option Nat) (path : Option Path)
+    (n : Nat) (pre post : Str) (r : Ref) (hdoc : r.Documented) (hch : r.child = none)
+    (hpre : ∀ c ∈ pre, c ≠ '[') (hpost : ∀ c ∈ post, c ≠ '[')
+    (hK : ∀ e ∈ P.ents, raisesTypeError e r.kind = false)
+    (hC : ∀ e ∈ P.ents, raisesTypeError e r.childKind = false)
+    (hP : knownComponentKind r.kind = true)
+    (habs : ∀ id, nameMatches P r.name id = false) :
+    (convertTextW linkCfg env P ctx path (renderParts (List.replicate n (pre, r)) post)).2 =
+      List.replicate n (.notFound r.render r.name) := by
+  have ht := absent_is_text env P ctx path r hK hC hP habs
+  have hw := absent_is_text_with_warning env P ctx path r hK hC hP habs
+  rw [text_warnings_in_order env P ctx path _ post
+    (by intro p hp; rw [List.eq_of_mem_replicate hp]; exact hdoc)
+    (by intro p hp; rw [List.eq_of_mem_replicate hp]; exact hpre) hpost
+    (by intro p hp e; rw [List.eq_of_mem_replicate hp]; simp [ht])]
+  induction n with
+  | zero => rfl
+  | succ k ih => simp [List.replicate_succ, hw, hch] at ih ⊢; exact ih
+
+/-- **No memory between conversions**: the warnings of a run (project file, every entity's text,
+    every static page, converted one after the other by the same Markdown object) are the
+    concatenation of the warnings of the single conversions - what is printed for a text never
+    depends on what was converted before it (the same broken reference in a second entity or on a
+    second page is reported again). -/
+theorem run_warnings_have_no_memory (cfg : NameCfg) (env : Env) (P : Project)
+    (a b : List (Option Nat × Option Path × Str)) :
+    runWarnings cfg env P (a ++ b) = runWarnings cfg env P a ++ runWarnings cfg env P b := by
+  induction a with
+  | nil => rfl
+  | cons x xs ih =>
+    obtain ⟨c, p, t⟩ := x
+    simp [runWarnings, ih]
+
+/-- **The warning says where**: for text that belongs to an entity the message starts with the
+    entity's source file and name; for a page converted with an explicit path, with that path
+    relative to the working directory; the project summary (no context, no path) has no prefix. -/
+theorem warning_says_where (env : Env) (P : Project) (i : Nat) (c : Ent) (path : Option Path) (p : Path) (w : Warn)
+    (hc : P.get i = some c) :
+    w.message env P (some i) path = "In '".toList ++ c.filename ++ ':' :: c.name ++ "': ".toList ++ w.body ∧
+    w.message env P none (some p) = "In file '".toList ++ joinSep '/' (relpath p env.cwd) ++ "': ".toList ++ w.body ∧
+    w.message env P none none = w.body := by
+  simp [Warn.message, warnPrefix, hc]
+
+/-! ### Round 6: "references inside code spans or blocks stay verbatim" (the pattern's place among Markdown's inline patterns) -/
+
+/-- **Where the link pattern is registered** (table read from the inline-pattern registry of a live
+    `MetaMarkdown` on every run, listed in the order of application): the priorities never increase
+    along the list; the code-span pattern `backtick` is applied *before* FORD's link pattern, which in
+    turn is applied before Markdown's own bracket syntax (`reference`, `link`, `short_reference`), so
+    that the brackets of a reference reach it untouched; fenced and indented code blocks are taken out
+    by a preprocessor / block processor, i.e. before any inline pattern runs. -/
+theorem link_pattern_position :
+    descending Generated.C11.inlinePatterns = true ∧
+    codeShielded = true ∧
+    (["reference", "link", "short_reference"].all fun n =>
+        appliedBefore Generated.C11.inlinePatterns Generated.C11.linkPatternName n) = true ∧
+    Generated.C11.preprocessors.contains "fenced_code_block" = true ∧
+    Generated.C11.blockProcessors.contains "code" = true := by decide
+
+/-- **Code spans stay verbatim.**  For every project, context, path and every text cut at its code
+    spans (any number of spans, any content - references in any spelling included): with the patterns
+    applied in the registered order, whenever the conversion succeeds every span comes out with its
+    content exactly as written, every piece of running text is converted as `convertText` says, in
+    the order written, nothing added or lost. -/
+theorem code_spans_stay_verbatim (env : Env) (P : Project) (ctx : Option Nat) (path : Option Path)
+    (pieces : List Piece) (out : List OutPiece)
+    (h : convertPieces codeShielded linkCfg env P ctx path pieces = .ok out) :
+    PiecesOk linkCfg env P ctx path pieces out := by
+  rw [link_pattern_position.2.1] at h
+  exact convertPieces_shielded linkCfg env P ctx path pieces out h
+
+/-- ... and a reference inside a code span prints no warning, whether or not it names something. -/
+theorem references_in_code_spans_not_warned (env : Env) (P : Project) (ctx : Option Nat) (path : Option Path)
+    (s : Str) (rest : List Piece) :
+    warnPieces codeShielded linkCfg env P ctx path (.code s :: rest) =
+      warnPieces codeShielded linkCfg env P ctx path rest := by
+  rw [link_pattern_position.2.1]
+  exact warnPieces_shielded_code linkCfg env P ctx path s rest
+
 /-! ### URLs -/
 
 /-- Every URL `get_url` produces has exactly two path segments (`dir/file`), so
@@ -587,5 +781,51 @@ theorem same_file_unit_wins_example :
 example : convertLink W.env W.P (some 1) none
       { name := "S".toList, kind := some "subroutine".toList, child := some "V".toList }
     = .link "v".toList "../proc/s.html#variable-v".toList := by decide
+
+namespace W
+/-- the project `W.P` with the file name every entity reports (`.filename`) -/
+def PF : Project := { W.P with ents := W.P.ents.map fun e => { e with filename := "a.f90".toList } }
+end W
+
+/-- Non-vacuity: what the model prints for the three outcomes, as message texts. -/
+theorem warning_messages_example :
+    (convertLinkW W.env W.PF (some 1) none { name := "nosuch".toList }).1 = .text "nosuch".toList ∧
+    (convertLinkW W.env W.PF (some 1) none { name := "nosuch".toList }).2.map (Warn.message W.env W.PF (some 1) none) =
+      ["In 'a.f90:m': Could not substitute link [[nosuch]], 'nosuch' not found".toList] ∧
+    (convertLinkW W.env W.PF none (some (W.env.base ++ ["page".toList]))
+        { name := "s".toList, child := some "zz".toList }).1 = .link "s".toList "../proc/s.html".toList ∧
+    (convertLinkW W.env W.PF none (some (W.env.base ++ ["page".toList]))
+        { name := "s".toList, child := some "zz".toList }).2.map
+          (Warn.message W.env W.PF none (some (W.env.base ++ ["page".toList]))) =
+      ["In file 'doc/page': Could not substitute link [[s:zz]], \"zz\" not found in \"s\", linking to page for \"s\" instead".toList] ∧
+    (convertLinkW W.env W.PF none none { name := "q".toList, child := some "zz".toList }).2.map
+          (Warn.message W.env W.PF none none) =
+      ["Could not substitute link [[q:zz]], \"zz\" not found in \"q\", linking to page for \"q\" instead".toList,
+       "Could not substitute link [[q:zz]], 'q' not found".toList] ∧
+    (convertLinkW W.env W.PF (some 1) none { name := "S".toList, child := some "V".toList }).2 = [] ∧
+    (convertTextW linkCfg W.env W.PF (some 1) none (chars! "old [[gone]] and [[gone]], see [[s]]")).2 =
+      [.notFound (chars! "[[gone]]") (chars! "gone"), .notFound (chars! "[[gone]]") (chars! "gone")] := by
+  decide
+
+/-- non-vacuity of `repeated_absent_reference_warned_each_time` / `text_warnings_in_order`: their
+    hypotheses hold for a documented reference to an absent name -/
+example : (convertTextW linkCfg W.env W.PF none none
+      (renderParts (List.replicate 3 ("x ".toList, ({ name := "gone".toList } : Ref))) (chars! "."))).2
+    = List.replicate 3 (.notFound (chars! "[[gone]]") (chars! "gone")) := by decide
+
+/-- **The order of the registry is what protects the spans** (non-vacuity of `code_spans_stay_verbatim`
+    and of its dependence on the table): in the registered order `` `[[m]]` `` stays as written and
+    the absent `[[gone]]` inside a span prints nothing; were the link pattern applied first, the
+    reference inside the span would become a link inside `<code>`. -/
+theorem code_span_order_example :
+    (convertPieces codeShielded linkCfg W.env W.PF (some 2) none
+        [.plain (chars! "see [[m]] and "), .code (chars! "call [[m]](x)"), .plain (chars! " or "), .code (chars! "[[gone]]")]).toOption =
+      some [.segs [.plain (chars! "see "), .link (chars! "m") (chars! "../module/m.html"), .plain (chars! " and ")],
+           .code (chars! "call [[m]](x)"), .segs [.plain (chars! " or ")], .code (chars! "[[gone]]")] ∧
+    warnPieces codeShielded linkCfg W.env W.PF (some 2) none
+        [.plain (chars! "see [[m]] and "), .code (chars! "call [[m]](x)"), .plain (chars! " or "), .code (chars! "[[gone]]")] = [] ∧
+    (convertPieces false linkCfg W.env W.PF (some 2) none [.code (chars! "[[m]]")]).toOption =
+      some [.codeSegs [.link (chars! "m") (chars! "../module/m.html")]] := by
+  decide
 
 end Ford.C11
